@@ -56,4 +56,12 @@ def main():
 
 
 if __name__ == '__main__':
-    main()
+    try:
+        main()
+    except SystemExit:
+        raise
+    except BaseException:
+        import traceback
+        traceback.print_exc()
+        print('REPLAY-ERROR (the replay itself crashed; nothing is concluded from it)')
+        sys.exit(2)
